@@ -55,6 +55,57 @@ def slice_cone(assertions, extra):
     return keep
 
 
+def _atoms(e, exclude, cache):
+    """Relevance atoms of a term: applications of uninterpreted functions (as text) and uninterpreted constants other than
+    the excluded ones (the harness inputs, which nearly every assertion mentions)."""
+    k = e.get_id()
+    if k in cache:
+        return cache[k]
+    out = set()
+    stack = [e]
+    seen = set()
+    while stack:
+        t = stack.pop()
+        i = t.get_id()
+        if i in seen:
+            continue
+        seen.add(i)
+        if z3.is_app(t) and t.decl().kind() == z3.Z3_OP_UNINTERPRETED:
+            if t.num_args() == 0:
+                if t.decl().name() not in exclude:
+                    out.add(t.decl().name())
+            else:
+                out.add(t.sexpr())
+                stack.extend(t.children())
+        elif z3.is_app(t):
+            stack.extend(t.children())
+    cache[k] = out
+    return out
+
+
+def relevance_subsets(assertions, goal, exclude, hops=(1, 2)):
+    """Growing subsets of `assertions` by relevance to `goal` (sharing an atom, transitively `hops` times).  Assertions that
+    only mention excluded constants (input ranges) are always kept.  Proving unsat from a SUBSET of the assumptions is sound;
+    a `sat` answer from a subset means nothing and the caller moves on to the next, finally to the full set."""
+    cache = {}
+    info = [(a, _atoms(a, exclude, cache)) for a in assertions]
+    base = [a for a, at in info if not at]
+    out = []
+    atoms = set()
+    for g in goal:
+        atoms |= _atoms(g, exclude, cache)
+    picked = set()
+    for hop in range(1, max(hops) + 1):
+        new = [(i, at) for i, (a, at) in enumerate(info) if i not in picked and at and (at & atoms)]
+        for i, at in new:
+            picked.add(i)
+        for i, at in new:
+            atoms |= at
+        if hop in hops:
+            out.append(base + [info[i][0] for i in sorted(picked)])
+    return out
+
+
 def _cvc5(smt2, timeout_s):
     try:
         import cvc5
